@@ -725,7 +725,7 @@ func (x *Exec) envFor(st *State, results []Val) *Env {
 }
 
 func (x *Exec) addVC(st *State, kind, name, prop string, pos token.Pos, goal Term, src string) {
-	if goal.S == "true" {
+	if goal.S == "true" && kind == "safety" {
 		return
 	}
 	if kind == "safety" && (x.noSafety || x.c.NoSafety) {
